@@ -448,6 +448,37 @@ func (c *Ctx) ruleEpochArg() {
 					ok2 = true
 				}
 			}
+			// the verifier info (authorities, randomness, threshold) is the one resolved for THIS block's fork
+			okInfo := len(call.Call.Args) > 3
+			if okInfo {
+				ins := phiInputs(call.Call.Args[3])
+				if len(ins) == 0 {
+					okInfo = false
+				}
+				for _, v := range ins {
+					ex, isEx := v.(*ssa.Extract)
+					if !isEx || ex.Index != 0 {
+						okInfo = false
+						continue
+					}
+					src, isCall := ex.Tuple.(*ssa.Call)
+					if !isCall || src.Call.StaticCallee() == nil || src.Call.StaticCallee().Name() != "getVerifierInfo" {
+						okInfo = false
+						continue
+					}
+					hasHeader := false
+					for _, a := range src.Call.Args {
+						if a == ssa.Value(f.Params[1]) {
+							hasHeader = true
+						}
+					}
+					if !hasHeader {
+						okInfo = false
+					}
+				}
+			}
+			c.ob("R-EPOCHARG", fmt.Sprintf("VerifyBlock:newVerifier-info#%d", n), call.Pos(), okInfo,
+				"the epoch data handed to the verifier must, on every path, be getVerifierInfo(epoch, header) resolved for this block's own fork; a value cached per epoch number belongs to whichever fork was verified first, so honest blocks of another fork with different randomness/authorities are rejected and forged ones accepted")
 			c.ob("R-EPOCHARG", fmt.Sprintf("VerifyBlock:newVerifier-epoch#%d", n), call.Pos(), ok2,
 				"the verifier must be built with GetEpochForBlock(header) itself: with any other epoch (e.g. parent epoch + 1 after skipped epochs) honest VRF claims of the block's epoch are rejected and claims signed for another epoch accepted")
 		})
@@ -668,8 +699,13 @@ func (c *Ctx) ruleFullScan(rule string, f *ssa.Function, elemSubstr, why string)
 
 // R-CHANGEPRUNE: which pending scheduled changes survive a finalisation that applies none of them.
 func (c *Ctx) ruleChangePrune() {
+	c.ruleChangePruneOf("(*changeTree).pruneChanges", "pruneChanges")
+	c.ruleChangePruneOf("(*orderedPendingChanges).pruneChanges", "forced.pruneChanges")
+}
+
+func (c *Ctx) ruleChangePruneOf(fn, label string) {
 	const dir = "dot/state"
-	f := c.fn(dir, "(*changeTree).pruneChanges")
+	f := c.fn(dir, fn)
 	if f == nil {
 		return
 	}
@@ -698,15 +734,15 @@ func (c *Ctx) ruleChangePrune() {
 				anc = append(anc, call)
 			}
 		}
-		if b, ok := call.Call.Value.(*ssa.Builtin); ok && b.Name() == "append" && strings.Contains(call.Type().String(), "pendingChangeNode") {
+		if b, ok := call.Call.Value.(*ssa.Builtin); ok && b.Name() == "append" && (strings.Contains(call.Type().String(), "pendingChangeNode") || strings.Contains(call.Type().String(), "pendingChange")) {
 			keep = append(keep, in)
 		}
 	})
-	c.ob("R-CHANGEPRUNE", "pruneChanges:asks-descendant-of-finalised", f.Pos(), len(desc) > 0, "roots announced after the finalised block on its chain are recognised by isDescendantOf(finalised, root)")
-	c.ob("R-CHANGEPRUNE", "pruneChanges:asks-ancestor-of-finalised", f.Pos(), len(anc) > 0,
+	c.ob("R-CHANGEPRUNE", label+":asks-descendant-of-finalised", f.Pos(), len(desc) > 0, "roots announced after the finalised block on its chain are recognised by isDescendantOf(finalised, root)")
+	c.ob("R-CHANGEPRUNE", label+":asks-ancestor-of-finalised", f.Pos(), len(anc) > 0,
 		"a root announced by an ANCESTOR of the finalised block whose effective number is still ahead is never tested for (no isDescendantOf(root, finalised)): it is dropped and the change never takes effect (e.g. announced at #6 with delay 3, finalise #7, then #9)")
 	if len(keep) == 0 {
-		c.ob("R-CHANGEPRUNE", "pruneChanges:keep", f.Pos(), false, "no append of a kept root found (anchor changed)")
+		c.ob("R-CHANGEPRUNE", label+":keep", f.Pos(), false, "no append of a kept root found (anchor changed)")
 		return
 	}
 	if len(desc) == 0 || len(anc) == 0 {
@@ -747,7 +783,7 @@ func (c *Ctx) ruleChangePrune() {
 			}
 		}
 		want := tc.d || tc.a
-		c.ob("R-CHANGEPRUNE", fmt.Sprintf("pruneChanges:descendant=%v,ancestor=%v", tc.d, tc.a), keep[0].Pos(), kept == want,
+		c.ob("R-CHANGEPRUNE", fmt.Sprintf(label+":descendant=%v,ancestor=%v", tc.d, tc.a), keep[0].Pos(), kept == want,
 			fmt.Sprintf("root kept=%v, expected %v (a root is kept iff it is on the finalised block's chain)", kept, want))
 	}
 }
@@ -2644,4 +2680,331 @@ func (c *Ctx) ruleFreshStruct() {
 	})
 	c.ob("R-FRESHSTRUCT", "decodeStruct:temp-starts-from-zero", f.Pos(), n > 0 && bad == "",
 		"the temporary struct is initialised with a copy of the whole destination (at "+bad+"): unexported fields are carried over, so a types.Header decoded into a previously used value keeps the old cached hash and Hash() no longer is BLAKE2b-256 of the header's encoding")
+}
+
+// R-FRESHDEST: a decode loop gives every element its own destination object.
+func (c *Ctx) ruleFreshDecodeDest(rule, dir, fn string) {
+	f := c.fn(dir, fn)
+	if f == nil {
+		return
+	}
+	c.doc(rule, fn+": every scale.Unmarshal executed inside a loop decodes into a destination variable that is created in that loop iteration (its allocation is in the loop body): a destination hoisted out of the loop makes all decoded entries share the pointers it holds (e.g. one *types.Header for every stored header of a slot)")
+	loops := loopsOf(f)
+	n := 0
+	eachInstr(f, func(b *ssa.BasicBlock, _ int, in ssa.Instruction) {
+		call, ok := in.(*ssa.Call)
+		if !ok || !strings.HasSuffix(calleeName(&call.Call), "pkg/scale.Unmarshal") || len(call.Call.Args) < 2 {
+			return
+		}
+		var loop map[*ssa.BasicBlock]bool
+		for _, l := range loops {
+			if l[b] && (loop == nil || len(l) < len(loop)) {
+				loop = l
+			}
+		}
+		if loop == nil {
+			return
+		}
+		dst := call.Call.Args[1]
+		if mi, ok := dst.(*ssa.MakeInterface); ok {
+			dst = mi.X
+		}
+		al, isAlloc := dst.(*ssa.Alloc)
+		if !isAlloc {
+			return
+		}
+		// only destinations that hold pointers are at risk (a plain slice/number destination is overwritten entirely)
+		holdsPtr := false
+		if st, ok := al.Type().Underlying().(*types.Pointer).Elem().Underlying().(*types.Struct); ok {
+			for i := 0; i < st.NumFields(); i++ {
+				if _, ok := st.Field(i).Type().Underlying().(*types.Pointer); ok {
+					holdsPtr = true
+				}
+			}
+		}
+		if !holdsPtr {
+			return
+		}
+		n++
+		c.ob(rule, fmt.Sprintf("%s:decode-destination#%d", fn, n), call.Pos(), loop[al.Block()],
+			shortFn(f)+" decodes every element of the loop into one destination `"+al.Comment+"` declared outside the loop: the pointers it holds are shared by all decoded entries, which end up describing the last element")
+	})
+	if n == 0 {
+		c.ob(rule, fn+":decode-destination", f.Pos(), false, "no scale.Unmarshal into a pointer-holding struct inside a loop (anchor changed)")
+	}
+}
+
+// R-LOCKPAIR: a function releases exactly the locks it takes (same mutex field, same mode).
+func (c *Ctx) ruleLockPairing(rule, dir string) {
+	sp := c.ssaPkg(dir)
+	if sp == nil {
+		return
+	}
+	c.doc(rule, dir+": in every function the multiset of (mutex field, mode) acquired by Lock/RLock equals the multiset released by Unlock/RUnlock, deferred or not: `x.RLock(); defer y.RUnlock()` leaks x and unlocks a mutex that is not held (a fatal runtime error)")
+	n := 0
+	for _, f := range allFuncs(c, sp) {
+		acq := map[string]int{}
+		rel := map[string]int{}
+		eachInstr(f, func(_ *ssa.BasicBlock, _ int, in ssa.Instruction) {
+			var cc *ssa.CallCommon
+			switch x := in.(type) {
+			case *ssa.Call:
+				cc = &x.Call
+			case *ssa.Defer:
+				cc = &x.Call
+			default:
+				return
+			}
+			nm := calleeName(cc)
+			mode := ""
+			switch nm {
+			case "(*sync.RWMutex).RLock", "(*sync.RWMutex).RUnlock":
+				mode = "R"
+			case "(*sync.RWMutex).Lock", "(*sync.RWMutex).Unlock", "(*sync.Mutex).Lock", "(*sync.Mutex).Unlock":
+				mode = "W"
+			default:
+				return
+			}
+			fa, ok := cc.Args[0].(*ssa.FieldAddr)
+			if !ok || fieldVar(fa) == nil {
+				return
+			}
+			key := namedType(fa.X.Type()) + "." + fieldVar(fa).Name() + "/" + mode
+			if strings.HasSuffix(nm, "Unlock") {
+				rel[key]++
+			} else {
+				acq[key]++
+			}
+		})
+		if len(acq) == 0 && len(rel) == 0 {
+			continue
+		}
+		n++
+		var bad []string
+		for k, a := range acq {
+			if rel[k] == 0 {
+				bad = append(bad, k+" acquired, never released")
+			}
+			_ = a
+		}
+		for k := range rel {
+			if acq[k] == 0 {
+				bad = append(bad, k+" released, never acquired")
+			}
+		}
+		sort.Strings(bad)
+		if len(bad) > 0 {
+			c.ob(rule, relName(f.String())+":lock-pairing", f.Pos(), false, shortFn(f)+": "+strings.Join(bad, "; "))
+		}
+	}
+	c.ob(rule, "scan", token.NoPos, n > 0, fmt.Sprintf("%d functions taking or releasing a mutex field examined", n))
+}
+
+// R-EPOCHKEYS: epoch-definition database accessors are given the key of the kind of data they are instantiated for.
+func (c *Ctx) ruleEpochKeyRoles() {
+	sp := c.ssaPkg("dot/state")
+	if sp == nil {
+		return
+	}
+	c.doc("R-EPOCHKEYS", "dot/state: getEpochDefinitionFromDatabase[T] / getAndDeleteEpochDataFromDefinition... instantiated for ConfigData is passed configDataKey, for EpochDataRaw epochDataKey: testing `is the next CONFIG already stored?` under the epoch-DATA key makes FinalizeBABENextConfigData return early for ever once epoch data exists")
+	n := 0
+	for _, f := range allFuncs(c, sp) {
+		eachInstr(f, func(_ *ssa.BasicBlock, _ int, in ssa.Instruction) {
+			call, ok := in.(*ssa.Call)
+			if !ok || call.Call.StaticCallee() == nil {
+				return
+			}
+			nm := call.Call.StaticCallee().Name()
+			if !strings.HasPrefix(nm, "getEpochDefinitionFromDatabase[") {
+				return
+			}
+			want := ""
+			switch {
+			case strings.Contains(nm, "ConfigData"):
+				want = "configDataKey"
+			case strings.Contains(nm, "EpochDataRaw"):
+				want = "epochDataKey"
+			default:
+				return
+			}
+			n++
+			got := ""
+			for _, a := range call.Call.Args {
+				for v := range backwardSlice(a, nil) {
+					if u, ok := v.(*ssa.UnOp); ok {
+						if g, ok := u.X.(*ssa.Global); ok && (g.Name() == "configDataKey" || g.Name() == "epochDataKey") {
+							got = g.Name()
+						}
+					}
+					if fn, ok := v.(*ssa.Function); ok && (fn.Name() == "configDataKey" || fn.Name() == "epochDataKey") {
+						got = fn.Name() // the key builders are passed as function values
+					}
+				}
+			}
+			c.ob("R-EPOCHKEYS", fmt.Sprintf("%s:%s#%d", shortFn(f), want, n), call.Pos(), got == want,
+				fmt.Sprintf("%s reads the %s definition under the key %s", shortFn(f), strings.TrimSuffix(want, "Key"), got))
+		})
+	}
+	if n == 0 {
+		c.ob("R-EPOCHKEYS", "calls", token.NoPos, false, "no getEpochDefinitionFromDatabase call found (anchor changed)")
+	}
+}
+
+// R-CONFIGFALLBACK: a block whose own fork announced no configuration for an epoch uses the latest earlier one.
+func (c *Ctx) ruleConfigFallback() {
+	f := c.fn("dot/state", "(*EpochState).GetConfigData")
+	if f == nil {
+		return
+	}
+	c.doc("R-CONFIGFALLBACK", "EpochState.GetConfigData: the search continues with the previous epoch not only when the epoch is unknown (errEpochNotInDatabase, ErrEpochNotInMemory) but also when only OTHER forks announced a configuration for it (errHashNotInMemory): the configuration of a block is the latest one announced on its own ancestry")
+	cont := map[string]bool{}
+	eachInstr(f, func(b *ssa.BasicBlock, _ int, in ssa.Instruction) {
+		call, ok := in.(*ssa.Call)
+		if !ok || calleeName(&call.Call) != "errors.Is" {
+			return
+		}
+		for v := range backwardSlice(call.Call.Args[1], nil) {
+			if u, ok := v.(*ssa.UnOp); ok {
+				if g, ok := u.X.(*ssa.Global); ok {
+					cont[g.Name()] = true
+				}
+			}
+		}
+	})
+	need := []string{"errEpochNotInDatabase", "ErrEpochNotInMemory", "errHashNotInMemory"}
+	var missing []string
+	for _, k := range need {
+		if !cont[k] {
+			missing = append(missing, k)
+		}
+	}
+	c.ob("R-CONFIGFALLBACK", "GetConfigData:falls-back-when-own-fork-silent", f.Pos(), len(missing) == 0,
+		fmt.Sprintf("GetConfigData does not treat %v as `try the previous epoch`: when a competing fork announced a configuration for the epoch, a block on a silent fork gets a hard error instead of the latest earlier configuration", missing))
+}
+
+// R-SETSTART: applying a change never rewrites the recorded start of the CURRENT set.
+func (c *Ctx) ruleSetStart() {
+	c.doc("R-SETSTART", "GrandpaState.ApplyForcedChanges / ApplyScheduledChanges: setChangeSetIDAtBlock is called for the NEW set id (current + 1) only; writing it for the unmodified current set id overwrites the block at which the current set began and re-attributes that set's earlier blocks to the previous set (GetSetIDByBlockNumber)")
+	for _, name := range []string{"(*GrandpaState).ApplyForcedChanges", "(*GrandpaState).ApplyScheduledChanges"} {
+		f := c.fn("dot/state", name)
+		if f == nil {
+			continue
+		}
+		n := 0
+		eachInstr(f, func(_ *ssa.BasicBlock, _ int, in ssa.Instruction) {
+			call, ok := in.(*ssa.Call)
+			if !ok || call.Call.StaticCallee() == nil || call.Call.StaticCallee().Name() != "setChangeSetIDAtBlock" {
+				return
+			}
+			n++
+			id := call.Call.Args[1]
+			isNew := false
+			if bo, ok := id.(*ssa.BinOp); ok && bo.Op == token.ADD {
+				if k, ok := constInt(bo.Y); ok && k == 1 {
+					isNew = true
+				}
+			}
+			c.ob("R-SETSTART", fmt.Sprintf("%s:setChangeSetIDAtBlock#%d", strings.TrimPrefix(name, "(*GrandpaState)."), n), call.Pos(), isNew,
+				strings.TrimPrefix(name, "(*GrandpaState).")+" records a start block for the CURRENT set id: scheduled change at #2 (set 1 begins after #2), forced change with last-finalised 5 applied -> set 1 now `begins` after #5 and block 4 is reported as set 0")
+		})
+	}
+}
+
+// R-GHOSTANCESTORS / R-CAPFORK / R-STAGEFUNC: three clauses of the voter's vote selection (D69-D71).
+func (c *Ctx) ruleVoterSelection() {
+	if f := c.fn(gDir, "(*Service).getPossibleSelectedBlocks"); f != nil {
+		c.doc("R-GHOSTANCESTORS", "Service.getPossibleSelectedBlocks: the search over common ancestors (getPossibleSelectedAncestors) runs on every successful path — it is not skipped when some directly voted block already has more than the threshold: a common ancestor of the other votes can pass the threshold AND be higher than that block")
+		var anc []ssa.Instruction
+		eachInstr(f, func(_ *ssa.BasicBlock, _ int, in ssa.Instruction) {
+			if cl, ok := in.(*ssa.Call); ok && cl.Call.StaticCallee() != nil && cl.Call.StaticCallee().Name() == "getPossibleSelectedAncestors" {
+				anc = append(anc, in)
+			}
+		})
+		ok := len(anc) > 0
+		// every success return is either reached through the ancestor search, or the direct votes were empty
+		// (the search loop simply does not iterate): no success return is reachable from entry avoiding the loop header
+		// that drives the ancestor search
+		for _, r := range returnsOf(f) {
+			if len(r.Results) < 2 || !isNilConst(resultOf(r, 1)) {
+				continue
+			}
+			reach := false
+			for _, a := range anc {
+				if instrReaches(a, r) || a.Block().Dominates(r.Block()) {
+					reach = true
+				}
+				// the return must be dominated by the header of the loop containing the ancestor search
+				for _, l := range loopsOf(f) {
+					if l[a.Block()] {
+						for hb := range l {
+							if hb.Dominates(r.Block()) && hb.Dominates(a.Block()) {
+								reach = true
+							}
+						}
+					}
+				}
+			}
+			if !reach {
+				ok = false
+			}
+			// an early success return that is guarded by `len(blocks) != 0` skips the search
+			for _, fc := range factsAt(r.Block()) {
+				if subj, op, k, isCmp := cmpWithConst(fc.cond); isCmp && k == 0 {
+					if _, isLen := lenOf(subj); isLen {
+						o := op
+						if !fc.truth {
+							o = negOp(o)
+						}
+						if o == token.NEQ || o == token.GTR {
+							ok = false
+						}
+					}
+				}
+			}
+		}
+		c.ob("R-GHOSTANCESTORS", "getPossibleSelectedBlocks:ancestor-search-not-skipped", f.Pos(), ok,
+			"getPossibleSelectedBlocks returns as soon as a directly voted block passes the threshold: prevotes genesis:1, y:2, z:1 (y, z children of q) select genesis although q has 3 of 4 votes and is higher")
+	}
+	if f := c.fn(gDir, "(*Service).determinePreCommit"); f != nil {
+		c.doc("R-CAPFORK", "Service.determinePreCommit: the block the precommit is capped at (pending authority change) is reached from the pre-voted block through parent links (GetHeader), never looked up by number on the best chain (GetHeaderByNumber): the GHOST may be on another fork than the best block")
+		byNumber := false
+		eachInstr(f, func(_ *ssa.BasicBlock, _ int, in ssa.Instruction) {
+			if cl, ok := in.(*ssa.Call); ok && cl.Call.IsInvoke() && cl.Call.Method.Name() == "GetHeaderByNumber" {
+				byNumber = true
+			}
+		})
+		c.ob("R-CAPFORK", "determinePreCommit:cap-on-own-fork", f.Pos(), !byNumber,
+			"determinePreCommit resolves the capped block with GetHeaderByNumber (best chain): when the GRANDPA-GHOST is on another fork the node precommits a block that is not an ancestor of its own target")
+	}
+	sp := c.ssaPkg(gDir)
+	if sp != nil {
+		c.doc("R-STAGEFUNC", "lib/grandpa: Service.PreVotes touches only the prevote containers and Service.PreCommits only the precommit containers (same container families as R-STAGEMAPS)")
+		family := map[string]string{"prevotes": "prevote", "pvEquivocations": "prevote", "precommits": "precommit", "pcEquivocations": "precommit"}
+		for name, st := range map[string]string{"(*Service).PreVotes": "prevote", "(*Service).PreCommits": "precommit"} {
+			f := c.fn(gDir, name)
+			if f == nil {
+				continue
+			}
+			var wrong []string
+			n := 0
+			for _, g := range withAnon(f) {
+				eachInstr(g, func(_ *ssa.BasicBlock, _ int, in ssa.Instruction) {
+					fa, ok := in.(*ssa.FieldAddr)
+					if !ok || fieldVar(fa) == nil {
+						return
+					}
+					fam, known := family[fieldVar(fa).Name()]
+					if !known {
+						return
+					}
+					n++
+					if fam != st {
+						wrong = append(wrong, fieldVar(fa).Name())
+					}
+				})
+			}
+			c.ob("R-STAGEFUNC", strings.TrimPrefix(name, "(*Service).")+":own-stage-containers", f.Pos(), n > 0 && len(wrong) == 0,
+				fmt.Sprintf("%s reads the other stage's container %v: the reported voter list mixes prevote equivocators into the precommit voters", name, wrong))
+		}
+	}
 }
